@@ -101,16 +101,47 @@ acquire_map_read(const struct AcquireRuntime* self_,
            "Invalid parameter: `istream` was out-of-bounds (%d).",
            countof(self->video));
     self = containerof(self_, struct runtime, handle);
-    EXPECT(self->video[istream].monitor.reader.state == ChannelState_Unmapped,
-           "Expected an unmapped reader. See acquire_unmap_read().");
-    struct vfslice_mut slice = make_vfslice_mut(channel_read_map(
-      &self->video[istream].sink.in, &self->video[istream].monitor.reader));
-    CHECK(self->video[istream].monitor.reader.status == Channel_Ok);
-    *beg = slice.beg;
-    *end = slice.end;
-    return AcquireStatus_Ok;
+    {
+        struct video_s* const video = self->video + istream;
+        enum AcquireStatusCode ecode = AcquireStatus_Error;
+        lock_acquire(&video->monitor.lock);
+        if (video->monitor.reader.state != ChannelState_Unmapped) {
+            LOGE("Expected an unmapped reader. See acquire_unmap_read().");
+        } else {
+            struct vfslice_mut slice = make_vfslice_mut(
+              channel_read_map(&video->sink.in, &video->monitor.reader));
+            if (video->monitor.reader.status != Channel_Ok) {
+                LOGE("Expression evaluated as false:\n\t%s",
+                     "monitor.reader.status == Channel_Ok");
+            } else {
+                *beg = slice.beg;
+                *end = slice.end;
+                ecode = AcquireStatus_Ok;
+            }
+        }
+        lock_release(&video->monitor.lock);
+        return ecode;
+    }
 Error:
     return AcquireStatus_Error;
+}
+
+/// Discards everything the monitor reader has not consumed yet. The monitor
+/// lock must be held and the reader must be unmapped.
+static void
+monitor_flush(struct video_s* video)
+{
+    size_t nbytes;
+    do {
+        struct slice slice =
+          channel_read_map(&video->sink.in, &video->monitor.reader);
+        nbytes = (uint8_t*)slice.end - (uint8_t*)slice.beg;
+        channel_read_unmap(&video->sink.in, &video->monitor.reader, nbytes);
+        TRACE("[stream: %d] Monitor flushed %llu bytes",
+              (int)video->stream_id,
+              nbytes);
+    } while (nbytes);
+    video->monitor.reader.status = Channel_Ok;
 }
 
 enum AcquireStatusCode
@@ -122,9 +153,19 @@ acquire_unmap_read(const struct AcquireRuntime* self_,
     CHECK(self_);
     CHECK(istream < countof(self->video));
     self = containerof(self_, struct runtime, handle);
-    channel_read_unmap(&self->video[istream].sink.in,
-                       &self->video[istream].monitor.reader,
-                       consumed_bytes);
+    {
+        struct video_s* const video = self->video + istream;
+        lock_acquire(&video->monitor.lock);
+        channel_read_unmap(
+          &video->sink.in, &video->monitor.reader, consumed_bytes);
+        if (video->monitor.flush_on_unmap) {
+            // The acquisition this region belonged to was stopped while the
+            // client held it: nothing more of it may be delivered.
+            video->monitor.flush_on_unmap = 0;
+            monitor_flush(video);
+        }
+        lock_release(&video->monitor.lock);
+    }
     return AcquireStatus_Ok;
 Error:
     return AcquireStatus_Error;
@@ -205,6 +246,7 @@ acquire_init(void (*reporter)(int is_error,
         struct video_s* video = self->video + i;
         memset(video, 0, sizeof(*video)); // NOLINT
         video->stream_id = (uint8_t)i;
+        lock_init(&video->monitor.lock);
 
         EXPECT(
           video_sink_init(&video->sink, i, 1ULL << 30, sig_sink_stop_source) ==
@@ -559,12 +601,6 @@ Error:
     return AcquireStatus_Error;
 }
 
-static size_t
-slice_size_bytes(const struct slice* slice)
-{
-    return (uint8_t*)slice->end - (uint8_t*)slice->beg;
-}
-
 enum AcquireStatusCode
 acquire_stop(struct AcquireRuntime* self_)
 {
@@ -585,20 +621,17 @@ acquire_stop(struct AcquireRuntime* self_)
         // If the monitor has been initialized and its read region hasn't
         // already been released, flush it. This takes at most 2 iterations.
         if (video->monitor.reader.id) {
-            size_t nbytes;
-            do {
-                struct slice slice =
-                  channel_read_map(&video->sink.in, &video->monitor.reader);
-                nbytes = slice_size_bytes(&slice);
-                channel_read_unmap(
-                  &video->sink.in, &video->monitor.reader, nbytes);
-                TRACE("[stream: %d] Monitor flushed %llu bytes", i, nbytes);
-            } while (nbytes);
-            // The flush may run while the client still holds a mapped region.
-            // The channel flags that as a misuse of the reader, but it is this
-            // function's doing, not the client's: don't let it poison every
-            // later acquire_map_read().
-            video->monitor.reader.status = Channel_Ok;
+            lock_acquire(&video->monitor.lock);
+            if (video->monitor.reader.state == ChannelState_Mapped) {
+                // The client still holds a mapped region. Releasing it behind
+                // the client's back would let the next acquisition overwrite
+                // frames that are still being read: leave it alone and
+                // discard the rest when the client unmaps.
+                video->monitor.flush_on_unmap = 1;
+            } else {
+                monitor_flush(video);
+            }
+            lock_release(&video->monitor.lock);
         }
 
         // The workers are gone and every registered reader has been drained:
